@@ -246,6 +246,16 @@ theorem static_no_write_counterexample : ¬ FullStatementStaticNoWrite := by
   revert h2
   decide
 
+/-- the read-only guard tests the WHOLE value word (`stack.Back(2).Sign() != 0`, pinned by
+    `read_only_guard_as_modelled`): in a read-only frame a CALL with any non-zero value is refused --
+    also a value whose low 64 or 128 bits are zero (2^64, 2^128, 2^256 - 2^64: the searcher and the
+    generators draw value operands from that lattice with accounts rich enough to afford them) -/
+theorem static_call_value_refused (v : Nat) (hv : v ≠ 0) : roBlocked true CallKind.call.op v = true := by
+  simp [roBlocked, CallKind.op, hv]
+
+example : roBlocked true CallKind.call.op (2 ^ 64) = true ∧ roBlocked true CallKind.call.op (2 ^ 256 - 2 ^ 64) = true :=
+  ⟨static_call_value_refused _ (by decide), static_call_value_refused _ (by decide)⟩
+
 /-- boundary of the depth check `evm.depth > CallCreateDepth` (1024, a generated fact): an entry point
     called at depth 1024 is not refused for depth, at depth 1025 it is, before touching anything. The
     searcher runs a self-recursive contract on the implementation and counts exactly 1025 frames. -/
